@@ -874,12 +874,13 @@ def laws(cx, states, tier, repeat_ns=None):
 
 def guarded_laws(cx, states, tier):
     try:
-        with Deadline(400):
+        with Deadline(80 if tier == 'quick' else 300):
             cx.cur = ('laws', '', 'law stage')
             laws(cx, states, tier)
     except CpuTimeout as e:
         law, cls, desc = cx.cur
         cx.viol(law, (cls + ':' if cls else '') + 'hangs', f'{D(desc)}: {e} in the law stage (stuck in or after this call)')
+        cx.part.note('hung_groups', [cx.ad.name])
         cx.flush()
     except Exception as e:   # real code raising on valid elements outside the wrapped call sites
         import traceback
@@ -913,8 +914,11 @@ def run_small(part, ad, job, tier, state_cap=60000):
     if len(ad.elems) <= 130 and not R.is_group(ref, ad.elems):
         part.note('harness_errors', [f'reference model of {ad.name} is not a group'])
         return
-    states = guarded(cx, 200, explore, cx, state_cap)
+    if part.notes.get('hung_groups'):
+        return           # a real call did not return earlier in this job: do not burn one budget per group
+    states = guarded(cx, 40 if tier == 'quick' else 120, explore, cx, state_cap)
     if states is None:
+        part.note('hung_groups', [ad.name])
         return
     part.note('groups', 1)
     part.note('groups_by_family', {ad.key: 1})
@@ -1114,7 +1118,7 @@ def job_builtin(part, job, fg):
                 f'order in the reference arithmetic')
         return
     part.note('standard_base_point_and_order', {str((gen, n) == ad.std): 1})
-    states = guarded(cx, 400, explore, cx, 200000)
+    states = guarded(cx, 150 if tier == 'quick' else 400, explore, cx, 200000)
     if states is None:
         return
     part.note_max('max_states_one_group', len(states))
@@ -1321,7 +1325,7 @@ def job_kummer(part, job, fg):
         cx = Ctx(part, ad, job)
         part.note('groups', 1)
         part.note('groups_by_family', {'HC-builtin': 1})
-        states = guarded(cx, 400, explore, cx, 100000)
+        states = guarded(cx, 150 if tier == 'quick' else 400, explore, cx, 100000)
         if states is None:
             continue
         if cx.failed:
@@ -1345,6 +1349,8 @@ def job_class_groups(part, job, fg):
             continue
         ad = ClAd(fg, D)
         run_small(part, ad, job, tier)
+        if part.notes.get('hung_groups'):
+            break
         # the constructor must reduce any equivalent form to the reduced representative
         cnt = 0
         for x in ad.elems:
